@@ -130,7 +130,7 @@ func cStrE(s string) string {
 }
 
 type vCase struct {
-	hdrKind int // 0 one address, 1 no field, 2 two fields, 3 two addresses, 4 malformed, 5 empty value
+	hdrKind int // 0 one address, 1 no field, 2 two fields, 3 two addresses, 4 malformed, 5 empty value, 6/7 several addresses in a field that does not parse
 	from    string
 	place   int // 0 at domain, 1 at org domain, 2 none, 3 multiple at domain, 4 temp failure at domain, 5 temp failure at org, 6 malformed record, 7 non-DMARC TXT only at domain + record at org, 8 perm DNS error, 9 non-DNS error
 	pol     vPol
@@ -153,6 +153,12 @@ func vRun(out *vOut, c vCase, stats map[string]int) {
 		hdr.Add("From", "not an address at all <")
 	case 5:
 		hdr.Add("From", "")
+	case 6:
+		// several authors, one of them with a display name the parser cannot decode (an encoded word in
+		// an unknown charset): the field as a whole does not parse, and it still has more than one author
+		hdr.Add("From", "ceo@unrelated.org, =?x-unknown?Q?Some_One?= <"+fromAddr+">")
+	case 7:
+		hdr.Add("From", "\"unbalanced <"+fromAddr+">, other@unrelated.org")
 	}
 	hdr.Add("Subject", "x")
 
@@ -364,6 +370,9 @@ func TestVerif_C07(t *testing.T) {
 		c := vCase{from: vDomains[r.intn(len(vDomains))]}
 		if r.chance(12) {
 			c.hdrKind = 1 + r.intn(5)
+		}
+		if i%20 == 7 {
+			c.hdrKind = 6 + (i/20)%2 // chosen without drawing
 		}
 		if r.chance(55) {
 			c.place = r.intn(2)
